@@ -10,6 +10,7 @@
 // cfg = bit0 check_symlink, bit1 listing, bit2 aliases
 #include "common/vtrace.h"
 #include <vector>
+#include <map>
 #include <cppcms/service.h>
 #include <cppcms/application.h>
 #include <cppcms/http_response.h>
@@ -33,8 +34,8 @@ static std::vector<node> tree()
 {
 	std::vector<node> t;
 	int m=0;
-	#define D(p) { node n; n.path=p; n.kind='d'; n.marker=0; t.push_back(n); }
-	#define R(p) { node n; n.path=p; n.kind='r'; n.marker=++m; t.push_back(n); }
+	#define D(p) { node n; n.path=std::string(p); n.kind='d'; n.marker=0; t.push_back(n); }
+	#define R(p) { node n; n.path=std::string(p); n.kind='r'; n.marker=++m; t.push_back(n); }
 	#define L(p,to) { node n; n.path=p; n.kind='l'; n.marker=0; n.target=to; t.push_back(n); }
 	#define O(p) { node n; n.path=p; n.kind='o'; n.marker=0; t.push_back(n); }
 	D("www"); R("www/f.txt"); R("www/.hid");
@@ -45,9 +46,20 @@ static std::vector<node> tree()
 	L("www/lin","www/d"); L("www/lout","out"); L("www/lfo","out/f.txt"); L("www/lw2","www2");
 	O("www/sock");
 	D("www/s<&\"'"); R("www/s<&\"'/f.txt"); R("www/s<&\"'/a<b&c\"'.txt");
+	// a listable directory full of names that are hostile to HTML / URLs
+	D("www/h");
+	{
+		char const *hn[]={"it's.txt","x'onmouseover='y.html","q\"uo.txt","l<t.txt","g>t.txt","a&b.txt","sp ace.txt","p%c.txt","%27.txt",
+			"h#ash","q?m","s;c","e=q","pl+us","back\\slash","caf\xc3\xa9","\xff\xfe","tab\there","nl\nx","\x01ctl","&amp;","&#39;",
+			"(paren)!*~","<script>alert(1)<","'","\"",0};
+		for(int i=0;hn[i];i++) R(std::string("www/h/")+hn[i]);
+	}
+	D("www/h/d'ir"); R("www/h/d'ir/f.txt");
+	D("www/h/.hd"); R("www/h/.h'id");
 	D("www/df.txt");                       // what "/d/e/../f.txt" turns into when segments are merged
 	D("alt"); R("alt/f.txt"); R("alt/index.html"); R("alt/.hid");
 	D("alt/sub"); R("alt/sub/f.txt");
+	D("alt/h"); R("alt/h/it's"); R("alt/h/a&b<c>\"d"); D("alt/h/d'");
 	L("alt/lup","");
 	D("alt2"); R("alt2/f.txt");
 	D("www2"); R("www2/f.txt"); R("www2/index.html");
@@ -66,6 +78,7 @@ static std::vector<node> tree()
 	return t;
 }
 
+static std::string printable(std::string s) { for(size_t i=0;i<s.size();i++) if(!isalnum((unsigned char)s[i]) && !strchr("./-_",s[i])) s[i]='?'; return s; }
 static std::string sb;   // sandbox directory
 
 static std::string bytes_json(std::string const &s) { std::string b=vt::J().bytes("x",s).str(); return b.substr(5,b.size()-6); }
@@ -201,6 +214,7 @@ struct server {
 };
 
 static int nev=0;
+static std::map<std::string,int> seen_tb;      // table part of a listing -> offset of the line that carries it
 static std::string between(std::string const &s,size_t &pos,std::string const &a,std::string const &b)
 {
 	size_t p=s.find(a,pos);
@@ -214,7 +228,7 @@ static std::string between(std::string const &s,size_t &pos,std::string const &a
 
 static void emit(server &S,std::string const &raw)
 {
-	if(nev%500==0) tr.line(S.reset_line);
+	if(nev%500==0) { tr.line(S.reset_line); seen_tb.clear(); }
 	nev++;
 	// what the HTTP front end does: percent-decode, then hand over as a C string
 	std::string dec=cppcms::util::urldecode(raw);
@@ -243,22 +257,16 @@ static void emit(server &S,std::string const &raw)
 		if(body.compare(0,5,"MARK:")==0 && body.size()<20 && body[body.size()-1]=='\n') { kind="file"; j.i("m",atoi(body.c_str()+5)); }
 		else if(body.find("<title>Directory Listing</title>")!=std::string::npos) {
 			kind="list";
-			size_t pos=0;
-			std::string h1=between(body,pos,"<h1>Index of ","</h1>");
-			j.bytes("h1",h1);
-			std::ostringstream rows,hrefs; rows<<'['; hrefs<<'['; bool first=true;
-			bool up=false;
-			for(;;) {
-				std::string href=between(body,pos,"<tr><td><code><a href='","'");
-				if(pos==std::string::npos) break;
-				std::string text=between(body,pos,">","</a></code>");
-				if(pos==std::string::npos) break;
-				if(href=="../" && text=="..") { up=true; continue; }
-				if(!first) { rows<<','; hrefs<<','; } first=false;
-				rows<<bytes_json(text); hrefs<<bytes_json(href);
-			}
-			rows<<']'; hrefs<<']';
-			j.raw("rows",rows.str()).raw("hrefs",hrefs.str()).b("up",up);
+			// the page is judged by TLC (tokenised the way a browser does); only the split at the first "<tbody>" and the
+			// de-duplication of identical table parts within a Reset block happen here
+			size_t tp=body.find("<tbody>");
+			std::string head= tp==std::string::npos ? body : body.substr(0,tp);
+			std::string tb  = tp==std::string::npos ? std::string() : body.substr(tp);
+			j.bytes("head",head);
+			int off=(nev-1)%500+1;                       // offset of this line from the Reset line of its block
+			std::map<std::string,int>::iterator it=seen_tb.find(tb);
+			if(it==seen_tb.end()) { seen_tb[tb]=off; j.i("bo",off).bytes("tb",tb); }
+			else j.i("bo",it->second);
 		}
 		else j.bytes("body",body.substr(0,80));
 	}
@@ -275,7 +283,10 @@ static std::vector<std::string> alphabet(std::string const &name)
 	}
 	else if(name=="full") {
 		F("d"); F("f.txt"); F("."); F(".."); F(""); F(".hid"); F("lin"); F("lout"); F("al"); F("al.."); F("alx"); F("lw2");
-		F("e"); F("index.html"); F("lfo"); F("sock"); F("b"); F("www2"); F("alt2"); F("s<&\"'"); F("sub"); F("lup"); F("..."); F("out"); F("ixo"); F("ixi");
+		F("e"); F("index.html"); F("lfo"); F("sock"); F("b"); F("www2"); F("alt2"); F("s<&\"'"); F("sub"); F("lup"); F("..."); F("out"); F("ixo"); F("ixi"); F("h");
+	}
+	else if(name=="hl") {       // directories with hostile entry names
+		F("h"); F(""); F(".."); F("."); F("d'ir"); F("al"); F("s<&\"'"); F("it's.txt");
 	}
 	else if(name=="ix") {       // directories whose index.html is a symlink (to outside / to inside)
 		F("ixo"); F("ixi"); F("d"); F(".."); F(""); F("."); F("al"); F("index.html"); F("f.txt");
@@ -314,7 +325,7 @@ int main(int argc,char **argv)
 			for(size_t k=0;k<pj.size();k++) { if(pj[k]=='[') pj.replace(k,1,"<<"),k++; else if(pj[k]==']') pj.replace(k,1,">>"),k++; }
 			for(size_t k=0;k<tj.size();k++) { if(tj[k]=='[') tj.replace(k,1,"<<"),k++; else if(tj[k]==']') tj.replace(k,1,">>"),k++; }
 			char const *k= t[i].kind=='d'?"dir": t[i].kind=='r'?"reg": t[i].kind=='l'?"lnk":"oth";
-			std::cout<<"  [p |-> "<<pj<<", k |-> \""<<k<<"\", m |-> "<<t[i].marker<<", t |-> "<<tj<<"]"<<(i+1<t.size()?",":"")<<"   \\* "<<t[i].path<<"\n";
+			std::cout<<"  [p |-> "<<pj<<", k |-> \""<<k<<"\", m |-> "<<t[i].marker<<", t |-> "<<tj<<"]"<<(i+1<t.size()?",":"")<<"   \\* "<<printable(t[i].path)<<"\n";
 		}
 		std::cout<<">>\n";
 		return 0;
